@@ -13,6 +13,11 @@ def prepare():
 def run(tier, seed, t0):
     data, meta = c07.gen()
     rows, devs = c07.split(data)
+    if tier == "thorough":
+        cdata, cmeta = c07.gen_chains("c07", seed)
+        c07.merge_rows([rows, cdata], rows + ".thorough", limit=40000, accepted_only=True)
+        rows = rows + ".thorough"
+        meta = dict(meta, distinct=meta["distinct"] + cmeta["distinct"], generated=meta["generated"] + cmeta["generated"])
     out = os.path.join(vlib.BUILD, "work", PID)
     os.makedirs(out, exist_ok=True)
     nrender = 5 if tier == "quick" else 15
